@@ -4,7 +4,7 @@
    node kinds and ranges, diagnostic ranges and messages, which guard of humanString fired. *)
 From Coq Require Import String List NArith ZArith Bool.
 From J5V.lib Require Import Text Outcome Corr.
-From J5V.model Require Import BclLexer BclParser BclErrpos.
+From J5V.model Require Import BclLexer BclParser BclErrpos BclErrposText.
 Import ListNotations.
 Local Open Scope bool_scope.
 
@@ -45,7 +45,12 @@ Inductive c11case :=
 | CFilePanic (input : list N) (ff : bool)
 (* humanString on each diagnostic separately *)
 | CHuman (input : list N) (context : Z) (ds : list odiag) (obs : list hres)
-| CHumanPanic (input : list N) (context : Z) (ds : list odiag).
+| CHumanPanic (input : list N) (context : Z) (ds : list odiag)
+(* the whole text ErrorsWithSource.HumanString(context) returns for these diagnostics, byte for byte *)
+| CHumanText (input : list N) (context : Z) (ds : list odiag) (text : list N)
+(* ParseFile on "a = " + opens x "[" + closes x "]" (+ newline when closes > 0), the input built here: the
+   boundary of the array nesting bound, compared on the projected result (tree nil, statements, diagnostics) *)
+| CDeep (opens closes : N) (ff : bool) (treenil : bool) (nstmts : N) (diags : list odiag).
 
 Definition c11_check (c : c11case) : bool :=
   match c with
@@ -77,4 +82,19 @@ Definition c11_check (c : c11case) : bool :=
     end
   | CHumanPanic input context ds =>
     is_panic (human_bytes input context (map diag_of_obs ds))
+  | CHumanText input context ds text =>
+    match human_text_bytes input context (map diag_of_obs ds) with
+    | Ok t => list_N_eqb t text
+    | _ => false
+    end
+  | CDeep opens closes ff treenil nstmts diags =>
+    let input := [97; 32; 61; 32]%N ++ repeat 91%N (N.to_nat opens) ++ repeat 93%N (N.to_nat closes)
+                 ++ (if N.eqb closes 0 then [] else [10%N]) in
+    match parse_file input ff with
+    | Ok p =>
+      Bool.eqb (match ptree p with None => true | Some _ => false end) treenil
+      && N.eqb (N.of_nat (match ptree p with None => O | Some b => length b end)) nstmts
+      && list_eqb odiag_eqb (map diag_obs (pdiags p)) diags
+    | _ => false
+    end
   end.
